@@ -709,21 +709,16 @@ impl<E: Effect, R: CommandReceiver<E>, S: EventSender<E>> Worker<E, R, S> {
             Some(process) => {
                 let mut locals = Vec::new();
                 for &index in &indices {
-                    match process.locals.get(index) {
-                        Some(value) => {
-                            let (extracted, heap) = self
-                                .executor
-                                .extract_heap_data(value)
-                                .map_err(|e| EnvironmentError::HeapData(format!("{:?}", e)))?;
-                            locals.push((extracted, heap));
-                        }
-                        None => {
-                            return self.sender.send(Event::LocalsResponse {
-                                request_id,
-                                result: Err(EnvironmentError::LocalNotFound { process_id, index }),
-                            });
-                        }
-                    }
+                    // A binding that was never stored (its step was skipped by a nil
+                    // short-circuit earlier on the same REPL line) holds nil; see
+                    // `compact_locals`. An error response here would make the environment's
+                    // step fail and leave the request pending forever.
+                    let value = process.locals.get(index).cloned().unwrap_or_else(Value::nil);
+                    let (extracted, heap) = self
+                        .executor
+                        .extract_heap_data(&value)
+                        .map_err(|e| EnvironmentError::HeapData(format!("{:?}", e)))?;
+                    locals.push((extracted, heap));
                 }
                 Ok(locals)
             }
